@@ -107,6 +107,8 @@ class TLCResult:
         m = re.findall(r"(\d+) states generated, (\d+) distinct states found", out)
         if m:
             self.states, self.distinct = int(m[-1][0]), int(m[-1][1])
+        m = re.search(r"Finished computing initial states: (\d+) distinct state", out)
+        self.init_states = int(m.group(1)) if m else 1
         self.violated = ("is violated" in out) or ("Error: Deadlock" in out) or ("Temporal properties were violated" in out)
         self.error = (rc not in (0, 12, 13)) and not self.violated
 
@@ -173,6 +175,20 @@ def tlc_must(module, cfg, **kw):
     if r.error:
         raise Infra("TLC failed on %s/%s (rc=%d):\n%s" % (module, cfg, r.rc, r.out[-3000:]))
     return r
+
+
+def gen_scenarios(module, cfg_prefix, consts, edges=True, timeout=1500, key=lambda s: s["ops"], workers=None):
+    """Scenarios from the model's state graph: one per transition (edges) or one per
+    state, as BFS shortest histories; proper prefixes of other scenarios are dropped.
+    Returns (scenarios, tlc result, number exported)."""
+    cfg = cfg_prefix + ("_edges.cfg" if edges else "_gen.cfg")
+    g = tlc_must(module, cfg, consts=consts, timeout=timeout, workers=workers)
+    scens = g.printed("SCN")
+    want = (g.states - g.init_states) if edges else g.distinct
+    if len(scens) < want:
+        raise Infra("scenario export incomplete for %s: %d scenarios, expected %d" % (module, len(scens), want))
+    n = len(scens)
+    return drop_prefixes(scens, key=key), g, n
 
 
 # ---------------------------------------------------------------- trace validation
@@ -277,8 +293,8 @@ def known_findings():
 # ---------------------------------------------------------------- evidence / verdict
 
 class Report:
-    def __init__(self, pid, level="model_checking"):
-        self.pid, self.level = pid, level
+    def __init__(self, pid, level="model_checking", replay=False):
+        self.pid, self.level, self.is_replay = pid, level, replay
         self.t0 = time.time()
         self.cov = {"states": 0, "transitions": 0, "traces_validated_against_impl": 0, "samples": [],
                     "evaluations": 0, "distinct_nontrivial": 0, "rule": "", "exhaustive": False}
@@ -297,7 +313,7 @@ class Report:
         d = os.path.join(VERIF, "evidence", "replay")
         os.makedirs(d, exist_ok=True)
         for f in os.listdir(d):
-            if f.startswith(self.pid + "-"):
+            if f.startswith(self.pid + "-") and not self.is_replay:
                 os.unlink(os.path.join(d, f))
         out = []
         ranked = sorted(self.violations, key=lambda v: len(json.dumps(v[1], default=str)))
@@ -317,8 +333,9 @@ class Report:
         if not self.cov["samples"]:
             self.cov["samples"] = ["(none)"]
         os.makedirs(os.path.join(VERIF, "evidence"), exist_ok=True)
-        with open(os.path.join(VERIF, "evidence", self.pid + ".json"), "w") as f:
-            json.dump(ev, f, indent=1, default=str)
+        if not self.is_replay:
+            with open(os.path.join(VERIF, "evidence", self.pid + ".json"), "w") as f:
+                json.dump(ev, f, indent=1, default=str)
         for k in self.known:
             print("KNOWN-FINDING: property=%s %s" % (self.pid, k))
         for what, path in written:
